@@ -746,6 +746,15 @@ type nbtProbe struct {
 	Val  any
 }
 
+// ifaceList is the abstract value of an interface holding []any{elems...} with elements of scalar kind k
+func ifaceList(k string, elems ...any) any {
+	vs := make([]any, len(elems))
+	for i, e := range elems {
+		vs[i] = map[string]any{"ty": &goType{K: k}, "v": e}
+	}
+	return map[string]any{"ty": &goType{K: "slice", E: &goType{K: "iface"}}, "v": vs}
+}
+
 func nbtProbes() []nbtProbe {
 	sc := func(k string) *goType { return &goType{K: k} }
 	b1 := []any{[]any{float64(1)}, []any{float64(0)}}
@@ -757,6 +766,10 @@ func nbtProbes() []nbtProbe {
 		{"array-of-bool", &goType{K: "array", E: sc("bool")}, b1},
 		{"array-of-int64", &goType{K: "array", E: sc("i64")}, []any{[]any{float64(0), float64(0), float64(0), float64(0), float64(0), float64(0), float64(0), float64(9)}}},
 		{"nil-pointer-field", &goType{K: "struct", Fs: []goField{{Name: ints([]byte("p")), Ty: &goType{K: "ptr", E: sc("i32")}}}}, []any{"nil"}},
+		// []any whose elements are bytes / ints / longs: the encoder chooses a typed array from the first element
+		{"interface-list-of-int8", sc("iface"), ifaceList("i8", []any{float64(1)}, []any{float64(254)})},
+		{"interface-list-of-int32", sc("iface"), ifaceList("i32", []any{float64(0), float64(0), float64(0), float64(7)}, []any{float64(255), float64(255), float64(255), float64(255)})},
+		{"interface-list-of-int64", sc("iface"), ifaceList("i64", []any{float64(0), float64(0), float64(0), float64(0), float64(0), float64(0), float64(0), float64(9)})},
 	}
 }
 
